@@ -174,4 +174,22 @@ example :
         [.publish "u" "c", .update "v" "d", .withdraw "u", .publish "w" "e"]) =
       (some ⟨7, "r", .success⟩, some 7, [("v", "d"), ("w", "e")]) := by decide
 
+/-! ### a success clears a recorded failure (seed C19-r6)
+
+Whatever was recorded before - in particular a failure - a successful exchange is what the views show afterwards: the
+setters assign `last_exchange` unconditionally (the seeded change C19-r6 recorded the success of a list query only when the
+last exchange had not been a failure). -/
+
+theorem repo_success_clears_failure (s : RepoStatus) (uri : String) (now : Nat) :
+    (s.setLastUpdated uri now).optFailure = none ∧
+    ∀ d, (s.updatePublished uri d now).optFailure = none := ⟨rfl, fun _ => rfl⟩
+
+theorem parent_success_clears_failure (s : ParentStatus) (uri : String) (ent : Entitlements) (now : Nat) :
+    (s.setLastUpdated uri now).optFailure = none ∧ (s.setEntitlements uri ent now).optFailure = none := ⟨rfl, rfl⟩
+
+/-- … and a failure after a success is shown as that failure, with the time of the last success kept. -/
+theorem repo_failure_after_success (s : RepoStatus) (uri uri' err : String) (t t' : Nat) :
+    ((s.setLastUpdated uri t).setFailure uri' err t').optFailure = some err ∧
+    ((s.setLastUpdated uri t).setFailure uri' err t').lastSuccess = some t := ⟨rfl, rfl⟩
+
 end KM.Props.C19Src
